@@ -28,7 +28,7 @@ driver, and an oracle that states the property on the implementation's own tenso
 """
 from __future__ import annotations
 
-import copy
+import inspect
 import json
 import os
 import tempfile
@@ -48,6 +48,7 @@ DELAYED = ("DDPG", "TD3", "MATD3")
 # the multi-agent learners cost ~5 s per case (construction, clone): the quick tier draws them less often
 SINGLE_LOSS = [a for a in LOSS_ALGOS if not a.startswith("MA")]
 SINGLE_TRACK = [a for a in TRACK_ALGOS if not a.startswith("MA")]
+FINDING_SHARED_ENCODER = "C08-shared-encoder-target-hard-copy"
 REL_TOL = 1e-5
 BLEND_TOL = 1e-6
 
@@ -236,8 +237,10 @@ def eval_networks(agent, case, batch, seed: int):
             qs = [c(o, act).reshape(-1) for c in crit]
             agents.seed_all(seed)                                  # the draw learn() will make
             na = agent.actor_target(n)
-            noise = torch.empty_like(act).normal_(0, 0.2)          # actions.data.normal_(0, policy_noise)
-            noise = agent.multi_dim_clamp(-0.5, 0.5, noise)
+            sig = inspect.signature(agent.learn).parameters        # learn(experiences, noise_clip=0.5, policy_noise=0.2)
+            policy_noise, noise_clip = sig["policy_noise"].default, sig["noise_clip"].default
+            noise = torch.empty_like(act).normal_(0, policy_noise)  # actions.data.normal_(0, policy_noise)
+            noise = agent.multi_dim_clamp(-noise_clip, noise_clip, noise)
             na = agent.multi_dim_clamp(agent.min_action, agent.max_action, na + noise)
             qn = [c(n, na).reshape(-1) for c in crit_t]
             r, d = rew.reshape(-1), done.reshape(-1)
@@ -316,6 +319,7 @@ def run_loss_case(chk: Check, case: dict):
     ret = agent.learn(batch)
     got = returned_losses(algo, agent, ret)
     out = chk.driver.run(["reset", line])[1]
+    chk.corr["model_lines"] += 1
     problems = []
     if out in ("bad-op", "reject", "nan"):
         model = None
@@ -453,7 +457,7 @@ def read_sample(agent, pos, which: str) -> list[float]:
     return out
 
 
-def apply_prelude(chk_rng_seed: int, agent, case):
+def apply_prelude(agent, case):
     """clone / architecture mutation / checkpoint round trip in front of the tracked steps"""
     prelude = case.get("prelude", "fresh")
     algo = base_algo(case["algo"])
@@ -502,7 +506,7 @@ def run_track_case(chk: Check, case: dict):
     fam = case.get("family", "vector")
     agent = build_agent(case)
     pretrain(agent, case, int(case.get("pretrain", 1)))
-    agent, note = apply_prelude(0, agent, case)
+    agent, note = apply_prelude(agent, case)
     tau = float(agent.tau)
     pf = policy_freq_of(algo, agent)
     prng = _random.Random(int(case["seed"]) ^ 0x5EED)
@@ -510,7 +514,7 @@ def run_track_case(chk: Check, case: dict):
     pending = set(note.get("not_restored", []))     # target tensors a checkpoint load did not restore
     problems, tags = [], [f"track-{case['algo']}", f"prelude-{case.get('prelude', 'fresh')}", f"pf-{pf}",
                           f"tau-{tau:g}"]
-    impl_lines, model_ops = [], []
+    impl_lines, model_ops, findings = [], [], []
     model_ops.append(f"bellman init {pf} {frac(tau)} {counter_of(agent)} " +
                      " ".join(frac(v) for v in read_sample(agent, pos, "target")))
     impl_lines.append("ok")
@@ -560,8 +564,16 @@ def run_track_case(chk: Check, case: dict):
                                 f"although {len(off)} of its {len(wtg)} tensors differ from the online network "
                                 f"({len(list(unwrap(tg).parameters()))} tensors are visible to target.parameters())")
             elif bad:
-                problems.append(f"{case['algo']} {lab}: step {step}, tau={tau}: {len(bad)} of {len(wtg)} target tensors "
-                                f"are not tau*online + (1-tau)*previous, e.g. {bad[0][0]}: {bad[0][1]}")
+                msg = (f"{case['algo']} {lab}: step {step}, tau={tau}: {len(bad)} of {len(wtg)} target tensors "
+                       f"are not tau*online + (1-tau)*previous, e.g. {bad[0][0]}: {bad[0][1]}")
+                # the analysed shared-encoder defect: exactly the encoder tensors of a target critic, and they
+                # are a hard copy of the online network's encoder
+                if getattr(agent, "share_encoders", False) and algo in ("DDPG", "TD3") and "critic" in lab and \
+                        all(k.startswith("encoder.") and k in won and torch.equal(wtg[k].detach(), won[k].detach())
+                            for k, _why in bad):
+                    findings.append(msg + " (they equal the ONLINE encoder: hard copy)")
+                else:
+                    problems.append(msg)
         model_ops.append("bellman step " + " ".join(frac(v) for v in read_sample(agent, pos, "online")))
         impl_lines.append((expect_fire if seen_fire is None else seen_fire, counter_of(agent) if algo in DELAYED else None,
                            read_sample(agent, pos, "target")))
@@ -593,6 +605,7 @@ def run_track_case(chk: Check, case: dict):
         impl_lines += [("vec", tn), ("vec", tn)]
         tags.append(f"direct-{n}")
     out = chk.driver.run(["reset"] + model_ops)[1:]
+    chk.corr["model_lines"] += len(model_ops)
     # compare: the model follows the sampled weights; skip sample entries not restored by load
     skip = {i for i, (lab, name, _p) in enumerate(pos) if f"{lab}.{name}" in set(note.get("not_restored", []))}
     agree, first_diff = True, None
@@ -632,7 +645,7 @@ def run_track_case(chk: Check, case: dict):
         tags.append("targets-moved")
     if note.get("not_restored"):
         tags.append("load-left-target-tensors-unrestored(C07)")
-    detail = {"note": note, "first_diff": first_diff, "sample_size": len(pos)}
+    detail = {"note": note, "first_diff": first_diff, "sample_size": len(pos), "findings": findings}
     return agree, shown_impl, shown_model, problems, tags, detail
 
 
@@ -856,12 +869,18 @@ def run(chk: Check) -> None:
             sensitive[0] += 1
         if "INSENSITIVE-live-row" in tags:
             sensitive[1] += 1
-        if res["problems"] or not res["agree"]:
+        known = res["detail"].get("findings") if isinstance(res.get("detail"), dict) else None
+        if known and not res["problems"]:
+            # only the analysed defect shows (the model disagrees on the same tensors): KNOWN-FINDING when
+            # known_findings.json lists it as open, a violation otherwise
+            counts[kind][1] += (not res["agree"])
+            chk.finding(FINDING_SHARED_ENCODER, known[0], {"case": case, "impl": res["impl"], "model": res["model"],
+                                                          "oracle_problems": known, "detail": res["detail"]})
+        elif res["problems"] or not res["agree"]:
             counts[kind][1] += (not res["agree"])
             report(chk, case, res, kind)
     for k, (n, dd) in counts.items():
         chk.suite(f"bellman-{k}", n, dd)
-    chk.corr["model_lines"] = chk.evaluations
     chk.notes.append(f"metamorphic control: perturbing a LIVE row changed the outcome in {sensitive[0]} of "
                      f"{sensitive[0] + sensitive[1]} control cases")
     if sensitive[0] == 0 and sensitive[0] + sensitive[1] >= 3:
@@ -946,6 +965,7 @@ def replay(chk: Check, path: str) -> int:
     c = c.get("replay", c)
     case = c.get("case", c)
     res = run_case(chk, case)
+    res["problems"] = res["problems"] + list(res["detail"].get("findings", []) if isinstance(res["detail"], dict) else [])
     print(json.dumps({"case": case, "agree_with_model": res["agree"], "oracle_problems": res["problems"],
                       "impl": res["impl"][-4:], "model": res["model"][-4:], "detail": res["detail"]},
                      indent=1, default=str))
